@@ -106,7 +106,7 @@ func randStruct(rng *rand.Rand, o TypeOpts, depth int) reflect.Type {
 
 func randFieldType(rng *rand.Rand, o TypeOpts, depth int) reflect.Type {
 	leaf := func() reflect.Type {
-		if o.Time && rng.Intn(12) == 0 {
+		if o.Time && rng.Intn(9) == 0 {
 			if rng.Intn(3) == 0 {
 				return reflect.PointerTo(TTime)
 			}
